@@ -17,7 +17,7 @@ APPEND = '''
 // ---- appended by /verif (scratch overlay only) ----
 #[cfg(any(kani, fast_qr_verif))] #[path = "wasm.rs"] pub mod wasm_host;
 #[cfg(kani)] #[path = "%(verif)s/harness/kani/mod.rs"] mod verif_kani;
-#[cfg(fast_qr_verif)] #[path = "%(verif)s/harness/replay/mod.rs"] pub mod verif_replay;
+#[cfg(fast_qr_verif)] #[path = "%(replay)s/mod.rs"] pub mod verif_replay;
 '''
 
 _live = []
@@ -67,8 +67,12 @@ class Overlay:
             s = os.path.join(self.repo, name)
             if os.path.isfile(s):
                 shutil.copy(s, os.path.join(self.dir, name))
+        # the replay harness is copied (so that entries which no longer compile against this tree can be disabled, see _degrade)
+        self.replay_dir = os.path.join(self.dir, 'verif_replay')
+        shutil.copytree(os.path.join(VERIF, 'harness', 'replay'), self.replay_dir)
+        self.disabled_entries = []
         with open(os.path.join(self.dir, 'src', 'lib.rs'), 'a') as fh:
-            fh.write(APPEND % {'verif': VERIF})
+            fh.write(APPEND % {'verif': VERIF, 'replay': self.replay_dir})
         os.makedirs(os.path.join(self.dir, 'src', 'bin'), exist_ok=True)
         shutil.copy(os.path.join(VERIF, 'harness', 'replay', 'bin.rs'),
                     os.path.join(self.dir, 'src', 'bin', 'verif_replay.rs'))
@@ -98,6 +102,42 @@ class Overlay:
                     h.update(fh.read())
         return h.hexdigest()[:16]
 
+    def _degrade(self, stderr):
+        """a change of the tree can alter the signature of an internal function that a replay entry calls; the entry then
+        stops compiling and would take every check with it.  Disable exactly the entries (match arms of the replay harness)
+        the compiler errors point into; requests for them are answered `ERR entry disabled`, so only the jobs that need them
+        become inconclusive.  -> True if something was disabled (caller retries)."""
+        import re
+        hits = {}
+        for m in re.finditer(r'--> (\S*verif_replay/(\w+)\.rs):(\d+):\d+', stderr):
+            hits.setdefault(m.group(1), set()).add(int(m.group(3)))
+        changed = False
+        for path, lines in hits.items():
+            if not os.path.isabs(path):
+                path = os.path.join(self.dir, path)
+            if not os.path.isfile(path):
+                continue
+            src = open(path).read().split('\n')
+            starts = [i for i, l in enumerate(src) if re.match(r'^        (#\[cfg\(.*\)\]\s*)?"\w+" =>', l)]
+            for ln in sorted(lines):
+                idx = ln - 1
+                arm = max([i for i in starts if i <= idx], default=None)
+                if arm is None:
+                    continue
+                nxt = min([i for i in starts if i > arm] + [j for j in range(arm + 1, len(src)) if re.match(r'^        (other|_) =>', src[j])], default=None)
+                if nxt is None or idx >= nxt:
+                    continue
+                name = re.search(r'"(\w+)" =>', src[arm]).group(1)
+                if name in self.disabled_entries:
+                    continue
+                pre = re.match(r'^(\s*(?:#\[cfg\(.*\)\]\s*)?)', src[arm]).group(1)
+                src[arm:nxt] = ['%s"%s" => "ERR entry disabled: it no longer compiles against this tree".to_string(),' % (pre, name)] + [''] * (nxt - arm - 1)
+                self.disabled_entries.append(name)
+                changed = True
+                starts = [i for i, l in enumerate(src) if re.match(r'^        (#\[cfg\(.*\)\]\s*)?"\w+" =>', l)]
+            open(path, 'w').write('\n'.join(src))
+        return changed
+
     def mir(self, features='svg'):
         """textual MIR of the whole crate (debug assertions and overflow checks on)"""
         if features in self._mir:
@@ -108,7 +148,12 @@ class Overlay:
         if features:
             cmd += ['--features', features]
         cmd += ['--', '--cfg', 'fast_qr_verif', '-Zunpretty=mir', '-C', 'debug-assertions=on', '-C', 'overflow-checks=on']
-        r = subprocess.run(cmd, cwd=self.dir, env=self.env(), capture_output=True, text=True)
+        for attempt in range(6):
+            r = subprocess.run(cmd, cwd=self.dir, env=self.env(), capture_output=True, text=True)
+            if r.returncode == 0 and 'fn ' in r.stdout:
+                break
+            if not self._degrade(r.stderr):
+                break
         if r.returncode != 0 or 'fn ' not in r.stdout:
             raise RuntimeError('MIR dump failed:\n' + r.stderr[-4000:])
         self._mir[features] = r.stdout
@@ -129,7 +174,10 @@ class Overlay:
             cmd += ['--release']
         env = self.env({'RUSTFLAGS': '--cfg fast_qr_verif -C debug-assertions=on -C overflow-checks=on' if not release
                         else '--cfg fast_qr_verif'})
-        r = subprocess.run(cmd, cwd=self.dir, env=env, capture_output=True, text=True)
+        for attempt in range(6):
+            r = subprocess.run(cmd, cwd=self.dir, env=env, capture_output=True, text=True)
+            if r.returncode == 0 or not self._degrade(r.stderr):
+                break
         if r.returncode != 0:
             raise RuntimeError('native replay build failed:\n' + r.stderr[-6000:])
         p = os.path.join(tgt, 'release' if release else 'debug', 'verif_replay')
